@@ -102,7 +102,7 @@ def check_cert(ctx, fn, wire, ret_name, exp_name_prefix, issuer_comp, pub, sinfo
 def run(ctx):
     ctx.rule = RULE
     rng = ctx.rng
-    n = ctx.n(700, 40000)
+    n = ctx.n(700, 100000)
     for i in range(n):
         ik = rng.choice(KINDS)
         sk = rng.choice(KINDS)
